@@ -19,6 +19,26 @@ def _loop_over_messages(fn: ast.FunctionDef) -> ast.For | None:
     return None
 
 
+def _result_sinks(fn: ast.FunctionDef) -> set:
+    """Names that stand for the result's event list: the returned object, and a local list handed to its constructor as `messages`
+    (`out = []` ... `return Cls(messages=out)` fills the result exactly like `seq.add_message(...)` calls on the returned object)."""
+    sinks = set()
+    for r in walk_local(fn):
+        if isinstance(r, ast.Return) and r.value is not None:
+            v = r.value
+            if isinstance(v, ast.Name):
+                sinks.add(v.id)
+                nm = v.id
+                for a in walk_local(fn):
+                    if isinstance(a, ast.Assign) and len(a.targets) == 1 and isinstance(a.targets[0], ast.Name) and a.targets[0].id == nm and isinstance(a.value, ast.Call):
+                        v = a.value
+            if isinstance(v, ast.Call):
+                lst = kwarg(v, "messages") or (v.args[0] if v.args else None)
+                if isinstance(lst, ast.Name):
+                    sinks.add(lst.id)
+    return sinks
+
+
 def conversion_structure(ctx: Ctx) -> None:
     p = ctx.p
     # ------------------------------------------------------------------ absolute -> relative
@@ -30,11 +50,12 @@ def conversion_structure(ctx: Ctx) -> None:
         raise AnalysisError(f"{q}: message loop not found")
     m = loop.target.id
     res = next((r.value.id for r in walk_local(fi.node) if isinstance(r, ast.Return) and isinstance(r.value, ast.Name)), None)
+    sinks = _result_sinks(fi.node)
     for T in p.enum_order("MessageType"):
         tc = TypeCase(p, fi, {m}, T)
         exits = tc.run_body(loop.body)
-        copies = events_matching(exits, lambda e: e[0] == "append" and e[1] == res and e[2] in ("copy-of-msg", "other", "maybe-msg"))
-        raw = events_matching(exits, lambda e: e[0] == "append" and e[1] == res and e[2] == "msg")
+        copies = events_matching(exits, lambda e: e[0] == "append" and e[1] in sinks and e[2] in ("copy-of-msg", "other", "maybe-msg"))
+        raw = events_matching(exits, lambda e: e[0] == "append" and e[1] in sinks and e[2] == "msg")
         kinds = {k for k, _ in exits}
         want = (0, 0) if T == "INTERNAL" else (1, 1)
         ctx.check(kinds == {"end"} and (copies or (0, 0)) == want and (raw or (0, 0)) == (0, 0), "CONV",
@@ -88,6 +109,7 @@ def conversion_structure(ctx: Ctx) -> None:
         raise AnalysisError(f"{q}: message loop not found")
     m = loop.target.id
     res = next((r.value.id for r in walk_local(fi.node) if isinstance(r, ast.Return) and isinstance(r.value, ast.Name)), None)
+    sinks = _result_sinks(fi.node)
     clock = None
     for n in ast.walk(loop):
         if isinstance(n, ast.AugAssign) and isinstance(n.target, ast.Name) and src(n.value) == f"{m}.time" and isinstance(n.op, ast.Add):
@@ -105,7 +127,7 @@ def conversion_structure(ctx: Ctx) -> None:
         tc = TypeCase(p, fi, {m}, T)
         exits = tc.run_body(loop.body)
         acc = events_matching(exits, lambda e: e[0] == "aug" and e[1] == clock)
-        app = events_matching(exits, lambda e: e[0] == "append" and e[1] == res)
+        app = events_matching(exits, lambda e: e[0] == "append" and e[1] in sinks)
         kinds = {k for k, _ in exits}
         if T == "WAIT":
             ok = (acc or (0, 0)) == (1, 1) and (app or (0, 0)) == (0, 0)
